@@ -178,7 +178,9 @@ def run(ctx):
 
         def aclass(c):
             if attr_call(c, "_protocol", "authenticate"):
-                return ("oracle", "handshake", ["TimeoutError", AUTHERR])
+                return ("oracle", "handshake", ["TimeoutError", AUTHERR, "asyncio.CancelledError"])
+            if attr_call(c, "_disconnect"):
+                return ("event", "disconnect")
             return None
         for R in BUDGETS[:3]:
             ex = Explorer(prog, auth_owner, aclass, {an[0]: R})
@@ -189,6 +191,19 @@ def run(ctx):
                 tr = p.trace
                 n_att = len([x for x in tr if x.startswith("handshake:")])
                 desc = " ".join(tr)
+                cancels = [i for i, x in enumerate(tr) if x.startswith("handshake:") and x.endswith("CancelledError")]
+                if cancels:
+                    # C08.b a handshake abandoned by cancellation has its response still in flight: the connection is not reused.  Left open, the
+                    # late response is taken for the answer of the next handshake and that one's own response then fails the next exchange
+                    # (`Unexpected handshake response` out of the pre-send drain) although the device answers everything promptly.
+                    i_c = cancels[0]
+                    ctx.count("cancelled_handshake_exits")
+                    ctx.ob("C08.b", auth.qual, p.kind == "raise" and "disconnect" in tr[i_c + 1:] and "handshake:ok" not in tr[i_c + 1:],
+                           f"R={R}: a handshake abandoned by cancellation closes the connection before the cancellation propagates [{desc}]",
+                           func=auth.qual, file=file, construct=f"handshake loop, budget {R}: cancellation",
+                           fail=f"budget {R}: a send / authenticate cancelled between the handshake request and its response leaves the connection open with the "
+                                f"response in flight: the next exchange with a promptly answering device fails [{desc}] -> {p.kind} {p.exc or ''}")
+                    continue
                 ok = 1 <= n_att <= R and p.kind != "diverge"
                 if "handshake:ok" in tr:
                     # (leaving through `return` - the loop's function may be a helper of authenticate - is leaving the loop after the success)
@@ -420,4 +435,5 @@ def run(ctx):
     ctx.require_min("loops", 2)
     ctx.require_min("budgets", 7)
     ctx.require_min("failure_exits", 3)
+    ctx.require_min("cancelled_handshake_exits", 3)
     ctx.require_min("env_raisers", 1)
